@@ -167,6 +167,13 @@ def _annots(draw, names, hostile, is_return=False):
     """A list of annotation strings for one parameter / return value."""
     if draw(st.integers(0, 3)) == 0:
         return []
+    if not is_return and draw(st.integers(0, 5)) == 0:
+        # combinations of direction / nullability / optionality that each map to their own GIR attribute
+        return list(draw(st.sampled_from([
+            ['(out)', '(optional)', '(nullable)'], ['(inout)', '(optional)', '(nullable)'], ['(inout)', '(nullable)'],
+            ['(out)', '(nullable)'], ['(out)', '(optional)'], ['(out caller-allocates)', '(optional)'],
+            ['(out)', '(optional)', '(nullable)', '(transfer full)'], ['(inout)', '(optional)'], ['(nullable)', '(transfer none)'],
+            ['(out)', '(allow-none)'], ['(inout)', '(allow-none)'], ['(out)', '(skip)'], ['(out)', '(optional)', '(not nullable)']])))
     out = []
     n = draw(st.integers(1, 3))
     other = st.sampled_from(names) if names else st.just('no_such_param')
